@@ -1,5 +1,5 @@
 """C34 -- multi-trajectory results aggregate all simulated trajectories."""
-from contracts import runs, sequences
+from contracts import config, runs, sequences
 
 ID = "C34"
 LEVEL = "proof"
@@ -9,13 +9,15 @@ REPLAY = "replay/c34.py"
 def build(reg):
     sequences.register(reg, "C34")
     runs.register(reg, "C34")
+    config.register_pulser_data(reg, "C34")
     A = sequences.ADAPTER
     return dict(
         targets=[f"{A}:PulserData.get_sequences[register matrix]", f"{A}:PulserData.get_sequences[custom matrix]",
-                 "emu_mps.mps_backend:MPSBackend.run", "emu_sv.sv_backend:SVBackend.run"],
+                 "emu_mps.mps_backend:MPSBackend.run", "emu_sv.sv_backend:SVBackend.run", f"{A}:PulserData.__init__"],
         not_decided=["that mean-aggregated observables equal the average of the per-trajectory values and that "
                      "bitstring counts add up: this is pulser's Results.aggregate (a dependency; assumed contract)"],
-        trusted=["pulser: sum of samples.reps over hamiltonian.noisy_samples == n_trajectories (A4)",
+        trusted=["pulser: sum of samples.reps over hamiltonian.noisy_samples == the n_trajectories it was asked for (A4); "
+                 "that it is asked for config.n_trajectories is proved (PulserData.__init__)",
                  "pulser Results.aggregate combines exactly the list it is given (mean / bag-union per observable)"],
     )
 
